@@ -4,6 +4,7 @@ import (
 	"context"
 	"fmt"
 	logslog "log/slog"
+	"strconv"
 	"strings"
 
 	"github.com/hedzr/is/states"
@@ -240,6 +241,10 @@ func (level Level) ShortTag(length int) string {
 }
 
 func (level *Level) UnmarshalJSON(text []byte) error {
+	// the JSON form is a quoted string (see MarshalJSON)
+	if s, err := strconv.Unquote(string(text)); err == nil {
+		return level.UnmarshalText([]byte(s))
+	}
 	return level.UnmarshalText(text)
 }
 
